@@ -11,27 +11,28 @@ import (
 // their SDP, the model must predict the outcome, and whatever the parser accepts must satisfy the
 // re-marshal clause.
 var Exclusions = []string{
-	"all-back-channel",         // documented: back channels are unmarked when no standard channel exists
-	"title-single-space",       // "s= " is the encoding of the empty title
-	"title-line-break",         // a title with CR / LF cannot be written on one s= line
-	"mid-partial",              // rejected by the parser ("media IDs sent partially")
-	"mid-duplicate",            // rejected by the parser
-	"mid-not-alphanumeric",     // rejected by the parser
-	"duplicate-payload-type",   // two formats of one media with the same payload type share their attributes
-	"h264-sps-without-pps",     // sprop-parameter-sets needs both
-	"h264-invalid-sps",         // an SPS the SPS parser rejects is dropped
-	"generic-known-codec",      // a Generic whose rtpmap names a supported codec is parsed as that codec
-	"static-pt-mismatch",       // G711 / LPCM with a static payload type and other parameters
-	"dynamic-format-static-pt", // a dynamic-only format with a payload type outside 96..127
-	"opus-channels-0",          // legacy zero value (normalised to mono)
-	"mpeg4audio-sizelength-0",  // rejected by the parser ("sizelength is missing")
-	"asc-legacy-channelcount",  // AudioSpecificConfig given with the deprecated ChannelCount only
-	"fec-unknown-id",           // rejected by the parser
-	"fec-empty-group",          // "FEC " + "" is not a group
+	"all-back-channel",              // documented: back channels are unmarked when no standard channel exists
+	"title-single-space",            // "s= " is the encoding of the empty title
+	"title-line-break",              // a title with CR / LF cannot be written on one s= line
+	"mid-partial",                   // rejected by the parser ("media IDs sent partially")
+	"mid-duplicate",                 // rejected by the parser
+	"mid-not-alphanumeric",          // rejected by the parser
+	"duplicate-payload-type",        // two formats of one media with the same payload type share their attributes
+	"h264-sps-without-pps",          // sprop-parameter-sets needs both
+	"h264-invalid-sps",              // an SPS the SPS parser rejects is dropped
+	"generic-known-codec",           // a Generic whose rtpmap names a supported codec is parsed as that codec
+	"static-pt-mismatch",            // G711 / LPCM with a static payload type and other parameters
+	"dynamic-format-static-pt",      // a dynamic-only format with a payload type outside 96..127
+	"opus-channels-0",               // legacy zero value (normalised to mono)
+	"mpeg4audio-sizelength-0",       // rejected by the parser ("sizelength is missing")
+	"asc-legacy-channelcount",       // AudioSpecificConfig given with the deprecated ChannelCount only
+	"mpeg4audio-profile-level-id-0", // legacy zero value (written as 1)
+	"fec-unknown-id",                // rejected by the parser
+	"fec-empty-group",               // "FEC " + "" is not a group
 	"control-line-break",
-	"media-type-unsupported",   // m= accepts video audio application metadata meta text only
-	"negative-parameter",       // negative int fields are not valid parameters
-	"annexb-prefix",            // parameter sets with an Annex-B start code are stripped (camera quirk)
+	"media-type-unsupported", // m= accepts video audio application metadata meta text only
+	"negative-parameter",     // negative int fields are not valid parameters
+	"annexb-prefix",          // parameter sets with an Annex-B start code are stripped (camera quirk)
 	"latm-config-with-cpresent",
 	"generic-fmtp-not-canonical", // keys with upper case / blanks, values with ';' or outer blanks
 }
@@ -134,6 +135,9 @@ func (g *gen) Excluded(which string) *DescSpec {
 	case "mpeg4audio-sizelength-0":
 		m0.Type = "audio"
 		setFmt(&format.MPEG4Audio{PayloadTyp: 96, ProfileLevelID: 1, Config: genASC(r), SizeLength: 0, IndexLength: 3, IndexDeltaLength: 3})
+	case "mpeg4audio-profile-level-id-0":
+		m0.Type = "audio"
+		setFmt(&format.MPEG4Audio{PayloadTyp: 96, ProfileLevelID: 0, Config: genASC(r), SizeLength: 13, IndexLength: 3, IndexDeltaLength: 3})
 	case "asc-legacy-channelcount":
 		m0.Type = "audio"
 		setFmt(&format.MPEG4Audio{PayloadTyp: 96, ProfileLevelID: 1, Config: &mpeg4audio.AudioSpecificConfig{Type: mpeg4audio.ObjectTypeAACLC, SampleRate: 48000, ChannelCount: 2}, //nolint:staticcheck
